@@ -760,6 +760,10 @@ func (db *RockDB) GetRange(key []byte, start int64, end int64) ([]byte, error) {
 
 	valLen := int64(len(value))
 
+	if start < 0 && end < 0 && start > end {
+		// same as redis: both offsets count from the end and the range is reversed
+		return nil, nil
+	}
 	start, end = getRange(start, end, valLen)
 
 	if start > end {
